@@ -598,7 +598,7 @@ func GenR(rng *Rng, prop string, tier string) *RScript {
 	}
 	// a collection announced twice (listed at the start and seen by the watch, or two watch notifications): the second
 	// StartReadCollection may overlap the first or come any time later; it must have no further effect
-	if (prop == "C01" || prop == "C04") && rng.Pct(25) {
+	if ((prop == "C01" || prop == "C04") && rng.Pct(25)) || (prop == "C13" && rng.Pct(80)) {
 		l := Pick(rng, lives)
 		if l.c.ID != stopped && !l.dropped && l.c.State != "dropped" {
 			// (only for collections that stay alive: a notification that is still under way when its collection is dropped
